@@ -2,7 +2,7 @@
 // repository against their serial counterparts under many thread counts / schedules /
 // injected delays and records a call history of the kernel calls made inside the regions.
 // Input (stdin), one configuration per line:
-//   id routine n ndim equal L rb re cb ce triu threads sched chunk delay dseed window psi penalty maxdist inner pruning vseed
+//   id routine n ndim equal L rb re cb ce triu threads sched chunk delay dseed window psi penalty maxdist inner pruning vseed maxstep maxlengthdiff
 // routine: 0 ptrs 1 ndim_ptrs 2 matrix 3 ndim_matrix 4 matrices 5 ndim_matrices
 // rb=re=cb=ce=0 means "no block".  sched: 0 keep, 1 static, 2 dynamic, 3 guided (needs the
 // schedule(runtime) build).  Output: one JSON object per configuration.
@@ -58,10 +58,10 @@ int main(void) {
     char line[1024];
     while (fgets(line, sizeof line, stdin)) {
         long id; int routine, n, ndim, equal, L, rb, re, cb, ce, triu, threads, sched, chunk, delay, window, psi, inner, pruning;
-        unsigned dseed, vseed; double penalty, maxdist;
-        if (sscanf(line, "%ld %d %d %d %d %d %d %d %d %d %d %d %d %d %d %u %d %d %lf %lf %d %d %u", &id, &routine, &n, &ndim, &equal,
+        unsigned dseed, vseed; double penalty, maxdist, maxstep; int mld;
+        if (sscanf(line, "%ld %d %d %d %d %d %d %d %d %d %d %d %d %d %d %u %d %d %lf %lf %d %d %u %lf %d", &id, &routine, &n, &ndim, &equal,
                    &L, &rb, &re, &cb, &ce, &triu, &threads, &sched, &chunk, &delay, &dseed, &window, &psi, &penalty, &maxdist,
-                   &inner, &pruning, &vseed) != 23) continue;
+                   &inner, &pruning, &vseed, &maxstep, &mld) != 25) continue;
         int is_matrix = routine >= 2;
         if (is_matrix) equal = 1;
         if (routine % 2 == 0) ndim = 1;
@@ -78,6 +78,7 @@ int main(void) {
         }
         DTWSettings s = dtw_settings_default();
         s.window = window; s.penalty = penalty; s.max_dist = maxdist; s.inner_dist = inner; s.use_pruning = pruning;
+        s.max_step = maxstep; s.max_length_diff = mld;
         if (psi > 0) { int mn = L0; if (!equal) { mn = 1 << 30; for (int i = 0; i < n; i++) if (lengths[i] < mn) mn = lengths[i]; }
                        dtw_settings_set_psi(psi < mn ? psi : mn - 1, &s); }
         DTWBlock b0 = dtw_block_empty(); b0.rb = rb; b0.re = re; b0.cb = cb; b0.ce = ce; b0.triu = triu;
